@@ -37,7 +37,7 @@ ORDERS = ["", "<", ">", "!"]
 
 def plan(tier, seed):
     if tier == "quick":
-        return [dict(seed=seed, shard=i, n=110) for i in range(16)]
+        return [dict(seed=seed, shard=i, n=400) for i in range(16)]
     return [dict(seed=seed, shard=i, n=1200) for i in range(64)]
 
 
